@@ -555,10 +555,13 @@ def run(tier):
         # "when it wakes because a descriptor became ready it runs that callback": what the poll reported reaches the getter
         # (readiness bits, error/hang-up widening and its order; rules shared with C04)
         c04.o4_o5(prog, rep)
+        c04.o3_inflight(prog, rep)      # no event is taken out of its queue and then dropped or held across a callback
         # "events not yet run stay registered": a registration, cancellation or reset that fails has not destroyed a registration
         # that existed before the call (C14's rule on the event units)
         from . import c14
         c14.destroy_then_fail_rule(prog, rep, only_files=("events/events_network.c", "events/events_timer.c", "events/events_immediate.c", "datastruct/timerqueue.c"))
+        # ... nor lost the poll array: realloc's result is not stored over its own argument, and replaces it once it has succeeded
+        c14.realloc_idiom_rule(prog, rep, ("events/events_network.c",))
     n = len(configs)
     rep.require_min("O6-notearly", 6 * n)
     rep.require_min("H4-sift", 5 * n)
